@@ -46,11 +46,11 @@ BUDGET = {"quick": {"worker_timeout": 600, "case_timeout": 90}, "thorough": {"wo
 REQUIRED_COUNTERS = {
     "quick": {"sampler_mhcustom": 150, "sampler__dummy1d": 60, "sampler_mh": 60, "grad_compared_first": 300,
               "grad_compared_first_nograph": 300, "grad_compared_second": 150, "unused_tensor_grad_checked": 60,
-              "bwd_abscissae_checked": 500, "step_history_checked": 150, "mh_stat_chains": 20, "mh_chain_rule_checked": 40,
+              "bwd_abscissae_checked": 500, "step_history_checked": 150, "mh_stat_chains": 20, "mh_burnin_checked": 20, "mh_chain_rule_checked": 40,
               "meta_relations_checked": 40, "objparam_cases": 100, "shared_tensor_cases": 20},
     "thorough": {"sampler_mhcustom": 1500, "sampler__dummy1d": 600, "sampler_mh": 600, "grad_compared_first": 3000,
                  "grad_compared_first_nograph": 3000, "grad_compared_second": 1500, "unused_tensor_grad_checked": 600,
-                 "bwd_abscissae_checked": 5000, "step_history_checked": 1500, "mh_stat_chains": 200, "mh_chain_rule_checked": 400,
+                 "bwd_abscissae_checked": 5000, "step_history_checked": 1500, "mh_stat_chains": 200, "mh_burnin_checked": 200, "mh_chain_rule_checked": 400,
                  "meta_relations_checked": 400, "objparam_cases": 1000, "shared_tensor_cases": 200},
 }
 
@@ -67,6 +67,7 @@ def cases(seed, tier):
     out = []
     big = tier != "quick"
     n_custom, n_dummy, n_mhs, n_stat, n_meta = (300, 130, 110, 36, 60) if not big else (3600, 1500, 1300, 420, 700)
+    n_burn = 30 if not big else 300
 
     def common(rng, d):
         d["fkind"] = rng.choice(FKINDS)
@@ -123,6 +124,10 @@ def cases(seed, tier):
         out.append({"group": "mh_stat", "seed": sub_seed(seed, "c16ts", i), "sampler": "mh", "ns": 3000, "nb": 150,
                     "xshape": rng.choice([0, 1, 2]), "step_size": rng.choice([0.8, 1.5, 2.5]),
                     "pplace": rng.choice(["explicit", "editable", "nn"])})
+    for i in range(n_burn):
+        rng = random.Random(sub_seed(seed, "c16b", i))
+        out.append({"group": "mh_burn", "seed": sub_seed(seed, "c16bs", i), "sampler": "mh", "ns": rng.choice([1, 5, 20]), "nb": 600,
+                    "xshape": rng.choice([0, 1, 2]), "step_size": 1.0, "pplace": rng.choice(["explicit", "editable", "nn"]), "far": 30})
     for i in range(n_meta):
         rng = random.Random(sub_seed(seed, "c16e", i))
         d = {"group": "meta", "seed": sub_seed(seed, "c16es", i)}
@@ -363,7 +368,7 @@ def run_case(desc):
     group = desc["group"]
     if group == "meta":
         return run_meta(desc)
-    if group == "mh_stat":
+    if group in ("mh_stat", "mh_burn"):
         return run_mh_stat(desc)
     return run_main(desc)
 
@@ -746,7 +751,12 @@ def run_mh_stat(desc):
     def fcall(x):
         rec.add("f", x)
         return fbody(x, [], 1.0)
-    x0 = (mu + 0.5 * sig * torch.randn(d, dtype=DT, generator=tgen)).reshape(xshape)
+    burn = desc["group"] == "mh_burn"
+    if burn:
+        dirn = torch.randn(d, dtype=DT, generator=tgen)
+        x0 = (mu + desc["far"] * sig * dirn / dirn.norm()).reshape(xshape)
+    else:
+        x0 = (mu + 0.5 * sig * torch.randn(d, dtype=DT, generator=tgen)).reshape(xshape)
     step_size = desc["step_size"] * float(sig) / math.sqrt(d)
     obs.count("sampler_mh")
     rec.phase = "fwd"
@@ -762,6 +772,20 @@ def run_mh_stat(desc):
     obs.check(len(fx) in (ns, ns + 1) and npc in (nb + ns + 1, nb + ns + 2), "accounting:counts:mh",
               "mh made %d f evaluations and %d log p evaluations for nsamples=%d, nburnout=%d" % (len(fx), npc, ns, nb))
     seen = fx[1:] if (len(fx) == ns + 1 and same(fx[0], x0)) else fx
+    if burn:
+        # started 30 sigma from the mode; 600 burn-in steps with step sigma/sqrt(d) reach the bulk with > 40 standard deviations
+        # of margin (arrival takes 100-140 steps), after which |x - mu| > 8 sigma has probability ~1e-14 per sample
+        pe = rec.entries("p", "fwd")
+        obs.check(len(pe) >= 1 and same(pe[0][1], x0), "accounting:chain_start:mh", "the first log p evaluation is not at x0")
+        if seen:
+            far = max(float((x.reshape(-1) - mu).norm()) for x in seen) / float(sig)
+            obs.check(far <= 8.0, "accounting:burnin:mh", "after %d burn-in steps from %d sigma away a collected sample is still %.1f sigma "
+                      "from the mode (burn-in not performed or its final state dropped)" % (nb, desc["far"], far))
+            obs.count("mh_burnin_checked")
+            obs.note(max_sigma_distance=far)
+            mh_chain_rule(obs, dict(desc), {"x0": x0}, rec, seen)
+        obs.nontrivial = bool(seen)
+        return obs.result()
     if len(seen) < 100:
         obs.nontrivial = True
         return obs.result()
